@@ -39,7 +39,7 @@ def _sum(a):
 
 
 @scenario
-def delta_kernel(ctx, dim, kernel, grid, cell, case, dx_kind, n_markers=1):
+def delta_kernel(ctx, dim, kernel, grid, cell, case, dx_kind, n_markers=1, via="class"):
     """case: tuple per axis of 'zero' | 'interior' | 'slack'"""
     gen_support, gen_cos, gen_pesk, gen_interp = _modules(dim)
     _, _, sps, _ = sopht_modules()
@@ -79,8 +79,14 @@ def delta_kernel(ctx, dim, kernel, grid, cell, case, dx_kind, n_markers=1):
     else:
         nearest = np.zeros((dim, n), dtype=int)
         pos = pos.astype(ctx.real_t)
-    k_support = gen_support(dx=dx, eul_grid_coord_shift=shift, num_lag_nodes=n, interp_kernel_width=2)
-    k_weights = (gen_pesk if kernel == "peskin" else gen_cos)(dx=dx, interp_kernel_width=2, real_t=ctx.real_t)
+    if via == "class":
+        # the documented entry point: the communicator object hands out the three kernels
+        cls = getattr(sys.modules[f"sopht.numeric.immersed_boundary_ops.EulerianLagrangianGridCommunicator{dim}D"], f"EulerianLagrangianGridCommunicator{dim}D")
+        comm = cls(dx=dx, eul_grid_coord_shift=shift, num_lag_nodes=n, interp_kernel_width=2, real_t=ctx.real_t, n_components=1, interp_kernel_type=kernel)
+        k_support, k_weights = comm.local_eulerian_grid_support_of_lagrangian_grid_kernel, comm.interpolation_weights_kernel
+    else:
+        k_support = gen_support(dx=dx, eul_grid_coord_shift=shift, num_lag_nodes=n, interp_kernel_width=2)
+        k_weights = (gen_pesk if kernel == "peskin" else gen_cos)(dx=dx, interp_kernel_width=2, real_t=ctx.real_t)
     ctx.enable_pruning()
     if ctx.sym and "slack" in case:
         # model the acknowledged floor behaviour: the index is one below floor() on the slack axes
@@ -121,7 +127,7 @@ def delta_kernel(ctx, dim, kernel, grid, cell, case, dx_kind, n_markers=1):
     dist = support.copy()  # signed distances marker -> support cells
     k_weights(weights, support)
     ctx.disable_pruning()
-    if ctx.sym and kernel == "peskin":
+    if ctx.sym:
         # lemma step: sqrt applications with provably equal radicands are merged (each merge is an SMT query)
         flat = list(np.asarray(weights).reshape(-1))
         merged = merge_equal_radicands(ctx, flat)
@@ -170,7 +176,7 @@ def delta_kernel(ctx, dim, kernel, grid, cell, case, dx_kind, n_markers=1):
                 else:
                     ctx.eq(f"first_moment[{a},{m}]", mom, 0.0)
     # interpolation through the real kernel: constant field and the simulator's coordinate field
-    k_interp = gen_interp(dx=dx, num_lag_nodes=n, interp_kernel_width=2, n_components=1)
+    k_interp = comm.eulerian_to_lagrangian_grid_interpolation_kernel if via == "class" else gen_interp(dx=dx, num_lag_nodes=n, interp_kernel_width=2, n_components=1)
     # the interpolation kernel is linear in the field (sum of field * weight): one concrete constant suffices
     cval = 0.75
     field = ctx.zeros(grid) + cval
@@ -213,12 +219,16 @@ def main():
                     case = ["interior"] * dim
                     case[a] = "slack"
                     chk.add(delta_kernel, real_t=rt, dim=dim, kernel=kernel, grid=grid, cell=cells[0], case=case, dx_kind="unit")
-                chk.add(delta_kernel, real_t=rt, dim=dim, kernel=kernel, grid=grid, cell=[2] * dim, case=["interior"] * dim, dx_kind="unit", n_markers=2)
+                chk.add(delta_kernel, real_t=rt, dim=dim, kernel=kernel, grid=grid, cell=[2] * dim, case=["interior"] * dim, dx_kind="unit", n_markers=2, via="generators")
+                # communicators built earlier in the same process (other delta function / spacing / marker count / precision)
+                other = "cosine" if kernel == "peskin" else "peskin"
+                chk.add(delta_kernel, real_t=rt, dim=dim, kernel=kernel, grid=grid, cell=cells[0], case=["interior"] * dim, dx_kind="unit",
+                        _earlier=[{"kernel": other}, {"dx_kind": "odd", "n_markers": 2, "cell": [2] * dim}, {"_real_t": "float32" if rt == "float64" else "float64", "kernel": other}])
     if chk.quick:
         for dim in (2, 3):
             for kernel in ("peskin", "cosine"):
                 chk.add(delta_kernel, real_t="float32", dim=dim, kernel=kernel, grid=((7, 8) if dim == 2 else (7, 6, 8)), cell=[3] * dim, case=["zero"] + ["interior"] * (dim - 1), dx_kind="unit")
-    chk.bounds = ["one marker (kernels are per-marker maps) + a 2-marker run for the tiling; marker offset f_a in [0,1) symbolic per axis (cases f=0 / 0<f<1), cell index enumerated",
+    chk.bounds = ["kernels obtained from the communicator class (one 2-marker run through the bare generators); later-object instances: communicators with the other delta function / another spacing / marker count / precision are built and used first in the same process", "one marker (kernels are per-marker maps) + a 2-marker run for the tiling; marker offset f_a in [0,1) symbolic per axis (cases f=0 / 0<f<1), cell index enumerated",
                   "float-floor slack: marker within 2^-20 cell widths above a cell centre with the index one lower (tolerance 1e-9 on sums)", "grids (7,8) / (7,6,8) (dx = 1/8 exactly representable); dx = 1/n (and 0.37/n thorough); both kernels; 2D and 3D"]
     chk.outside = ["markers closer than two cells to the domain boundary (documented TODO of the source)", "rounding of the weight evaluation itself", "symbolic dx (dx only rescales distances; enumerated values)"]
     chk.assumptions = ["sqrt: s >= 0 and s^2 = radicand; cos/sin: |.| <= 1, exact values at multiples of pi/2, shift identities for arguments differing by multiples of pi/2",
